@@ -35,6 +35,8 @@ type Prophet struct {
 	peerPredictabilities map[bpv7.EndpointID]map[bpv7.EndpointID]float64
 	// dataMutex is a RW-mutex which protects change operations to the algorithm's metadata
 	dataMutex sync.RWMutex
+	// sentMutex serializes the read-modify-write cycles on a bundle's list of already served peers
+	sentMutex sync.Mutex
 	// config contains the values for prophet constants
 	config ProphetConfig
 }
@@ -214,6 +216,9 @@ func (prophet *Prophet) NotifyNewBundle(bp BundleDescriptor) {
 	// handle non-metadata bundles
 	// TODO: this is basically copy-pasted from routing_epidemic - extract this code into a reusable function
 
+	prophet.sentMutex.Lock()
+	defer prophet.sentMutex.Unlock()
+
 	bundleItem, err := prophet.c.store.QueryId(bp.Id)
 	if err != nil {
 		log.WithFields(log.Fields{
@@ -286,6 +291,9 @@ func (prophet *Prophet) SenderForBundle(bp BundleDescriptor) (sender []cla.Conve
 	}
 
 	delete = false
+
+	prophet.sentMutex.Lock()
+	defer prophet.sentMutex.Unlock()
 
 	bundleItem, err := prophet.c.store.QueryId(bp.Id)
 	if err != nil {
@@ -376,6 +384,9 @@ func (prophet *Prophet) SenderForBundle(bp BundleDescriptor) (sender []cla.Conve
 }
 
 func (prophet *Prophet) ReportFailure(bp BundleDescriptor, sender cla.ConvergenceSender) {
+	prophet.sentMutex.Lock()
+	defer prophet.sentMutex.Unlock()
+
 	bundleItem, err := prophet.c.store.QueryId(bp.Id)
 	if err != nil {
 		log.WithFields(log.Fields{
